@@ -99,6 +99,14 @@ func c02Overrides(c *Ctx) {
 		c.sibCompare(R, p.baseRecv+"."+p.method+"⊑"+p.uRecv+"."+p.method, base, u, o, p.allowMissing, nil, false)
 		// second pass: the same effects under the same branch conditions; differences of the guard only are listed
 		og := &sibOpts{Rename: uRename, Inline: p.inline, Self: map[*types.Func]bool{}, Guards: true}
+		if p.method == "PackCoalescedPacket" {
+			// the override's own flag "this datagram's Initial packet is built from the spec": under it nothing is
+			// coalesced (decided by C13.12); it is not part of the conditions shared with the base
+			og.GuardSkip = func(cond ssa.Value) bool {
+				ph, ok := cond.(*ssa.Phi)
+				return ok && ph.Comment == "specInitial" && ph.Parent() == u
+			}
+		}
 		ag := map[string]string{}
 		for k, v := range p.allowMissing {
 			ag[k] = v
